@@ -149,6 +149,11 @@ def hook_scalar(sem, io):
         if insensitive(sem, io, node):
             if sem.endswith('vacuity'):
                 return 0.0
+            if l == r and l in (INF, -INF):
+                # both operands infinite with the same sign (a predicate over insensitive predicates: the grammar is untyped):
+                # the robustness l - r of the comparison is NaN, outside the numeric envelope (DESIGN 3.6) - no defined value
+                # (false alarm of vp check 7 at VERIF_SEED 1, DESIGN 8.2)
+                raise RefError('NaN')
             return INF if pred_sat(node[1], l, r) else -INF
         return pred_value(node[1], l, r)
     return h
